@@ -71,11 +71,9 @@ theorem onDisconnect_flow :
        "func{", "return false, true", "}",
        "use endpoint", "call c.endpoint.MakeHandler", "return nil"] := rfl
 
-/-- message ids: one counter per client, advanced by two under its mutex (`W.nextId`) -/
+/-- message ids: one counter for all clients, advanced by two atomically (`W.nextId`) -/
 theorem nextMessageID_flow :
-    Gen.Client.nextMessageIDFlow =
-      ["messageIDMutex.Lock", "defer c.messageIDMutex.Unlock()", "assign messageID", "use messageID",
-       "return c.messageID"] := rfl
+    Gen.Client.nextMessageIDFlow = ["return atomic.AddUint32(&messageID, 2)"] := rfl
 
 /-- the endpoint side: a read error makes `process` call `closeWith` and exit (`readFail`);
     `closeWith` closes the stream first, then empties every slot under the lock, scheduling one
